@@ -29,6 +29,9 @@ pub struct TimedOp {
     /// searches only: run through the PagedResults adapter with this page size (the per-item
     /// timeout applies to a paged search exactly as to a plain one)
     pub paged: Option<i32>,
+    /// unpaged searches only: go through the collecting entry point `Ldap::search()`; the timeout
+    /// governs each wait for an item there as well, and its expiry is an error, not a short result
+    pub collect: bool,
 }
 
 fn encode_behaviour(op: &TimedOp) -> String {
@@ -204,6 +207,16 @@ async fn run_op(ldap: &mut Ldap, op: &TimedOp) -> Vec<(u64, Ev)> {
             };
             evs.push((ms(t0), e));
         }
+        OpSpec::Search { .. } if op.collect && op.paged.is_none() => {
+            let r = Caught::new(ldap.search(&dn, Scope::Subtree, "(a=b)", vec!["*"])).await;
+            let e = match r {
+                Ok(Ok(ldap3::SearchResult(items, res))) => Ev::Ok(format!("collected:{}:{}:{}", items.len(), res.rc, res.text)),
+                Ok(Err(ldap3::LdapError::Timeout { .. })) => Ev::Timeout,
+                Ok(Err(e)) => Ev::Err(world::err_class(&e).into()),
+                Err(p) => Ev::Err(format!("panic:{}", p.site())),
+            };
+            evs.push((ms(t0), e));
+        }
         OpSpec::Search { .. } => {
             let st = match op.paged {
                 None => Caught::new(ldap.streaming_search(&dn, Scope::Subtree, "(a=b)", vec!["*"])).await,
@@ -269,7 +282,7 @@ fn expected(op: &TimedOp) -> (Vec<(u64, Ev)>, bool) {
     let tok = op.token;
     let mut evs = vec![];
     let mut tie = false;
-    let op = &TimedOp { token: op.token, timeout: effective(op.timeout), spec: op.spec.clone(), paged: op.paged };
+    let op = &TimedOp { token: op.token, timeout: effective(op.timeout), spec: op.spec.clone(), paged: op.paged, collect: op.collect };
     if op.timeout == Some(0) {
         // deadline "now": no response can have arrived; a search does not even start
         return (vec![(0, Ev::Timeout)], false);
@@ -344,6 +357,18 @@ fn expected(op: &TimedOp) -> (Vec<(u64, Ev)>, bool) {
                     (None, None) => {}
                 }
             }
+            if op.collect && op.paged.is_none() {
+                // one event: the call's return
+                let n = evs.iter().filter(|e| matches!(e.1, Ev::Item(_))).count();
+                let last = evs.last().cloned();
+                evs.clear();
+                match last {
+                    Some((t, Ev::Timeout)) => evs.push((t, Ev::Timeout)),
+                    Some((t, Ev::End)) => evs.push((t, Ev::Ok(format!("collected:{}:0:t:{}:done", n, tok)))),
+                    _ => {}
+                }
+                return (evs, tie);
+            }
             let last = evs.last().map(|e| e.0).unwrap_or(0);
             if timed_out {
                 evs.push((last, Ev::Finish(88, "user cancelled".into())));
@@ -384,7 +409,8 @@ pub fn gen_op(rng: &mut Rng, token: u64) -> TimedOp {
     };
     let timeout = if huge { Some(*rng.pick(&[u64::MAX, u64::MAX - 1, HUGE])) } else { timeout };
     let paged = if matches!(spec, OpSpec::Search { .. }) && rng.chance(1, 4) { Some(1 + rng.below(3) as i32) } else { None };
-    TimedOp { token, timeout, spec, paged }
+    let collect = matches!(spec, OpSpec::Search { .. }) && paged.is_none() && rng.chance(1, 4);
+    TimedOp { token, timeout, spec, paged, collect }
 }
 
 fn run_case(i: u64, rng: &mut Rng, rep: &mut Report, verbose: bool) {
@@ -435,7 +461,7 @@ fn run_case(i: u64, rng: &mut Rng, rep: &mut Report, verbose: bool) {
         let mut reuse = None;
         if table_after.1.is_empty() {
             ldap.verif_set_last_id(0);
-            let op = TimedOp { token: reuse_tok, timeout: None, spec: OpSpec::Single { delay: Some(0) }, paged: None };
+            let op = TimedOp { token: reuse_tok, timeout: None, spec: OpSpec::Single { delay: Some(0) }, paged: None, collect: false };
             let evs = world::watchdog(run_op(&mut ldap, &op)).await.unwrap_or_default();
             reuse = Some((ldap.last_id(), evs));
         }
@@ -513,6 +539,7 @@ fn classify(want: &[(u64, Ev)], got: &[(u64, Ev)], op: &TimedOp) -> String {
             Some(g) => {
                 return match (&w.1, &g.1) {
                     (Ev::Timeout, Ev::Timeout) => if g.0 < w.0 { "timeout-fired-early".into() } else { "timeout-fired-late".into() },
+                    (Ev::Timeout, Ev::Ok(s)) if s.starts_with("collected:") => "search()-returned-a-result-instead-of-timeout".into(),
                     (Ev::Timeout, Ev::Ok(_)) | (Ev::Timeout, Ev::Item(_)) | (Ev::Timeout, Ev::End) => "response-after-deadline-accepted-instead-of-timeout".into(),
                     (Ev::Timeout, Ev::Err(e)) => format!("error-{}-instead-of-timeout", e),
                     (Ev::Ok(_), Ev::Timeout) | (Ev::Item(_), Ev::Timeout) | (Ev::End, Ev::Timeout) => "timed-out-although-response-arrived-before-deadline".into(),
